@@ -1,5 +1,4 @@
-\* linearizable reads: replication rounds and their replies are asynchronous (a reply may be
-\* processed long after it was produced), elections are synchronous exchanges
+\* linearizable reads against asynchronous replication rounds (requests, replies, losses are separate steps)
 CONSTANTS
   Node = {a, b, c}
   InitVoters = {a, b, c}
@@ -7,7 +6,7 @@ CONSTANTS
   Nil = Nil
   MaxTerm = 2
   MaxLog = 4
-  MaxTimer = 3
+  MaxTimer = 2
   MaxAE = 2
   MaxClient = 1
   MaxCrash = 0
@@ -17,10 +16,10 @@ CONSTANTS
   MaxSnap = 0
   SnapSize = 1
   AsyncKinds = {"ae"}
-  MaxNet = 4
+  MaxNet = 2
   W = {}
+  MayTimeout = {a, b}
   Gen = FALSE
 SPECIFICATION Spec
-SYMMETRY Symm
-INVARIANTS ElectionSafety LogMatching NoViolation TypeOK
+INVARIANTS ElectionSafety NoViolation NoStaleRead TypeOK
 CHECK_DEADLOCK FALSE
